@@ -199,6 +199,14 @@ fn commit_events_body(p: usize, two_phase: bool, with_fault: bool) {
     let old_user = h0.primary_slot().user_root;
     let old_sys = h0.primary_slot().system_root;
     let mem = literal_mem(h0.clone(), None);
+    // a non-durable commit may be pending: readers are then served from the secondary slot, and
+    // must keep being served from it until the durable commit is published
+    let pending: bool = kani::any();
+    if pending {
+        kani::assume(h0.secondary_slot().transaction_id > old_id);
+        mem.state.lock().unwrap().read_from_secondary = true;
+    }
+    let visible_id = if pending { h0.secondary_slot().transaction_id } else { old_id };
     unsafe {
         CUR_MEM = &mem as *const TransactionalMemory;
         FAIL_AT = if with_fault { kani::any() } else { usize::MAX };
@@ -208,7 +216,7 @@ fn commit_events_body(p: usize, two_phase: bool, with_fault: bool) {
         mem.storage.verif_latch_failure();
     }
     let id = TransactionId::new(kani::any());
-    kani::assume(id > old_id);
+    kani::assume(id > old_id && id > visible_id);
     let user = hh::any_root();
     let sys = hh::any_root();
 
@@ -248,7 +256,7 @@ fn commit_events_body(p: usize, two_phase: bool, with_fault: bool) {
             }
             // observer: nothing of the new commit is visible while commit() is still running
             assert!(unsafe { EV_PUB_SEEN[i] }, "commit() holds no lock across a storage call");
-            assert!(unsafe { EV_PUB_ID[i] } == old_id.raw_id(), "old commit point published during commit()");
+            assert!(unsafe { EV_PUB_ID[i] } == visible_id.raw_id(), "the commit point visible before commit() is still the one published while it runs (never moves backwards)");
             assert!(unsafe { EV_PUB_DURABLE_ID[i] } == old_id.raw_id());
         }
         i += 1;
@@ -260,12 +268,14 @@ fn commit_events_body(p: usize, two_phase: bool, with_fault: bool) {
         assert!(st.header.two_phase_commit == two_phase && st.header.recovery_required);
         assert!(!st.read_from_secondary);
         assert!(st.header.secondary_slot().transaction_id == old_id, "the superseded commit is the secondary");
-        kani::cover!(true, "commit completed");
+        kani::cover!(pending, "durable commit over a pending non-durable commit");
+        kani::cover!(!pending, "commit completed");
     } else {
         assert!(st.header.primary_slot().transaction_id == old_id, "failed commit publishes nothing");
         assert!(hh::root_eq(&st.header.primary_slot().user_root, &old_user));
         assert!(hh::root_eq(&st.header.primary_slot().system_root, &old_sys));
-        assert!(!st.read_from_secondary);
+        assert!(st.read_from_secondary == pending, "a failed commit leaves the visible commit point unchanged");
+        assert!(st.latest_slot().transaction_id == visible_id);
         assert!(st.header.verif_primary_index() == h0.verif_primary_index());
         kani::cover!(!prelatched && fail_at == 1, "failed at the second storage call");
         kani::cover!(prelatched, "refused: failure already latched");
